@@ -4,7 +4,7 @@ import "strconv"
 
 func FormatFloat64(s string) (float64, error) {
 	var f string
-	if s[0] == '(' {
+	if len(s) > 0 && s[0] == '(' {
 		f = s[1:]
 	} else {
 		f = s
@@ -14,7 +14,7 @@ func FormatFloat64(s string) (float64, error) {
 
 func FormatInt64(s string) (int64, error) {
 	var i string
-	if s[0] == '(' {
+	if len(s) > 0 && s[0] == '(' {
 		i = s[1:]
 	} else {
 		i = s
